@@ -22,6 +22,10 @@ type stubClient struct {
 	cfgReply  []interface{}
 	cfgErr    bool
 	cfgCalls  int
+	// when cfgHold is set, the next workspace/configuration request takes its reply as it stands now and is
+	// answered only when the channel is closed (a slow client: the answer arrives after later ones)
+	cfgHold chan struct{}
+	cfgHeld int
 	logs      []string
 }
 
@@ -74,7 +78,15 @@ func (c *stubClient) Configuration(context.Context, *protocol.ConfigurationParam
 	if c.cfgErr {
 		return nil, errors.New("configuration unavailable")
 	}
-	return c.cfgReply, nil
+	reply := c.cfgReply
+	if hold := c.cfgHold; hold != nil {
+		c.cfgHold = nil
+		c.cfgHeld++
+		c.mu.Unlock()
+		<-hold
+		c.mu.Lock()
+	}
+	return reply, nil
 }
 func (c *stubClient) WorkspaceFolders(context.Context) ([]protocol.WorkspaceFolder, error) {
 	return nil, nil
